@@ -2,7 +2,7 @@
    Model: Ext/Hub2Sol.v, interpreted from the text extracted from the current Hub2.sol (Gen/SrcFactsSol.v)
    and co-executed with the compiled contract on go-ethereum's simulated chain (suite "evm"), the signed
    digests being the real hub types' GetCheckpoint values. *)
-From V Require Import Base.Prelude Base.Val Num.Arith Gen.SrcFactsSol Gen.SrcFactsGo Ext.Hub2Sol Proofs.ListX Proofs.C08Proofs.
+From V Require Import Base.Prelude Base.Val Num.Arith Gen.SrcFactsSol Gen.SrcFactsGo Ext.Hub2Sol Hub.SignerSet Hub.Prune Proofs.ListX Proofs.C08Proofs Proofs.C08Prune.
 Local Open Scope Z_scope.
 
 (* The current Hub2.sol compiles to the conditions the theorems below reason about (re-checked on every run). *)
@@ -77,6 +77,33 @@ Theorem C08_minter_multisig :
      msig_accepts (map (fun p => msig_weight p total) powers) = true -> 667 * total <= 1000 * zsum powers).
 Proof. split; [exact conn_threshold_value | exact msig_sound]. Qed.
 Print Assumptions C08_minter_multisig.
+
+(* Hub side of "in nonce order": whatever validators change, whatever executions are attested and however
+   far the height jumps, a signer set leaves the hub's store only when a set with a HIGHER nonce has been observed
+   as executed on the external side.  Every nonce above the highest observed one, up to the latest, stays
+   available to signers and relayers (on Minter, whose multisig takes strictly consecutive nonces, nothing that is
+   still to be executed may be skipped). *)
+Theorem C08_unexecuted_signer_sets_stay_available :
+  forall w blocks n,
+    let s := prun w blocks in
+    (maxobs_of blocks < n <= ss_latest_nonce (ps_sets s))%N -> In n (map fst (ps_stored s)).
+Proof. exact unexecuted_sets_stay_stored. Qed.
+Print Assumptions C08_unexecuted_signer_sets_stay_available.
+
+Theorem C08_pruned_only_below_observed :
+  forall w height o stored nh,
+    In nh stored -> ~ In nh (prune w height o stored) ->
+    exists x, o = Some x /\ (fst nh < x)%N /\ (snd nh < height - w)%N /\ (w <= height)%N.
+Proof. exact pruned_only_below_observed. Qed.
+Print Assumptions C08_pruned_only_below_observed.
+
+(* non-vacuity: three sets created, the second observed as executed, a jump beyond the window: set 1 is pruned,
+   sets 2 and 3 stay *)
+Example C08_prune_example :
+  let v1 := [mkBval 700 (Some [1%N]); mkBval 200 (Some [2%N]); mkBval 100 (Some [3%N])] in
+  let v2 := [mkBval 700 (Some [1%N]); mkBval 200 (Some [3%N]); mkBval 100 (Some [2%N])] in
+  map fst (ps_stored (prun 3 [(2%N, v1, []); (3%N, v2, []); (4%N, v1, [2%N]); (20%N, v1, [])])) = [2%N; 3%N].
+Proof. vm_compute. reflexivity. Qed.
 
 (* non-vacuity: three validators 40/35/25 %, threshold 2/3 *)
 Definition ex_sol := mkSol 2863311530 [([1%N], 1717986918); ([2%N], 1503238553); ([3%N], 1073741823)] 0 0 1 0 0 1 [].
